@@ -1124,7 +1124,11 @@ class NestedPipeFunc(PipeFunc):
             "resources": self.resources,
         }
         kwargs.update(update)
-        return NestedPipeFunc(**kwargs)  # type: ignore[arg-type]
+        f = NestedPipeFunc(**kwargs)  # type: ignore[arg-type]
+        # `defaults` and `bound` are not constructor arguments, so carry them over explicitly
+        f.update_defaults(self._defaults, overwrite=True)
+        f.update_bound(self._bound, overwrite=True)
+        return f
 
     def _combine_mapspecs(self) -> MapSpec | None:
         mapspecs = [f.mapspec for f in self.pipeline.functions]
